@@ -235,6 +235,14 @@ func (p *Prog) synthesizeAutos() {
 			for _, in := range a.Inline {
 				c.Inline[in] = true
 			}
+			if a.Kind == "loopvars" {
+				// `skip Type.Func.var`: a value that is read from the stream and deliberately dropped (redundant on the wire)
+				for _, sk := range a.Skip {
+					if i := strings.LastIndex(sk, "."); i > 0 && strings.Contains(strings.NewReplacer(")", "", "(", "", "*", "").Replace(key), sk[:i]) {
+						c.Claims["decoded-ok:"+sk[i+1:]] = true
+					}
+				}
+			}
 			seen := map[string]int{}
 			for i, prm := range fn.Params {
 				n := prm.Name()
